@@ -297,4 +297,23 @@ def support(rng, tier):
             base = compare(A, B, method)
             res.append((f'{method}_affine_invariant_{rep}', bool(np.allclose(compare(2 * A + 7, 0.5 * B - 3, method), base, atol=1e-9)),
                         dict(method=method)))
+        # whitened measures with a given pattern covariance (vector or matrix), data in very small units (exact powers of two):
+        # tolerance 1e-3 for the conjugate-gradient solver behind them (seeded change C17-m6)
+        Ap, Bp = A + 0.125, B + 0.125
+        sig_v = rs.randint(1, 5, size=nc).astype(float)
+        Q = rs.randint(-2, 3, size=(nc, nc)) / 8.0
+        sig_m = Q @ Q.T + np.eye(nc)
+        for sname, sig in (('vector', sig_v), ('matrix', sig_m)):
+            for e in (-20, -27):
+                sc = 2.0 ** e
+                base = compare(Ap, Bp, 'cosine_cov', sigma_k=sig)
+                got = compare(sc * Ap, sc * Bp, 'cosine_cov', sigma_k=sig)
+                res.append((f'cosine_cov_sigma_{sname}_scale_2^{e}_{rep}', bool(np.allclose(got, base, atol=1e-3)),
+                            dict(method='cosine_cov', sigma_k=sig.tolist(), A=Ap.tolist(), B=Bp.tolist(), scale=sc,
+                                 expected=base.tolist(), observed=np.asarray(got).tolist())))
+                base = compare(Ap, Bp, 'corr_cov', sigma_k=sig)
+                got = compare(sc * Ap + 3 * sc, sc * Bp - sc, 'corr_cov', sigma_k=sig)
+                res.append((f'corr_cov_sigma_{sname}_affine_2^{e}_{rep}', bool(np.allclose(got, base, atol=1e-3)),
+                            dict(method='corr_cov', sigma_k=sig.tolist(), A=Ap.tolist(), B=Bp.tolist(), scale=sc,
+                                 expected=base.tolist(), observed=np.asarray(got).tolist())))
     return res
